@@ -635,7 +635,8 @@ class MetadorGroup(MetadorNode):
         src_is_dataset: bool = isinstance(src_node, MetadorDataset)
         src_name: str = src_node.name.split("/")[-1]
         # user can override name at target
-        dst_name: str = kwargs.pop("name", src_name)
+        # (None is the default value of the keyword in h5py)
+        dst_name: str = kwargs.pop("name", None) or src_name
 
         # fix up target path
         dst_path: str
